@@ -268,3 +268,20 @@ def merge_default_reconverted(p: int, d1: bool, d2: bool) -> bool:
     if isinstance(again, PropertyError):
         return False
     return m.default is not None and m.default.python_code == again.python_code
+
+
+def _snapshot(p):
+    return (type(p).__name__, p.get_type_string(), p.get_type_string(json=True), p.required, None if p.default is None else p.default.python_code, p.description)
+
+
+def merge_leaves_its_arguments_alone(i: int, j: int, r1: bool, r2: bool) -> bool:
+    """
+    The properties handed to merge_properties belong to the models they came from (the allOf parent keeps using them):
+    merging must not change them, whatever the pair of kinds and whether or not the merge succeeds.
+    pre: 0 <= i < 16 and 0 <= j < 16
+    post: _
+    """
+    a, b = evolve(_pick_prop(i, r1, False)), evolve(_pick_prop(j, r2, False))
+    sa, sb = _snapshot(a), _snapshot(b)
+    merge_properties(a, b)
+    return _snapshot(a) == sa and _snapshot(b) == sb
